@@ -38,6 +38,8 @@ type family struct {
 	gen    func(n int) (decls, call string, want string) // decls of f_§, the call expression(s) printed, expected output
 	native bool                                          // needs the importer (no gc run)
 	nogc   bool                                          // too big for a gc batch: analytic expectation only
+	// template: decls is the source of a template (index.txt); no gc run
+	template bool
 }
 
 func around(points []int, lo, hi int) []int {
@@ -310,7 +312,7 @@ func families(tier string) []family {
 			return b.String(), "f_§()", "42\n"
 		}})
 	}
-	return fs
+	return append(fs, extraFamilies(tier)...)
 }
 
 type testCase struct {
@@ -323,9 +325,13 @@ func (tc testCase) program(i uint64) goprog.Case {
 	n := tc.fam.ns[tc.k]
 	decls, call, _ := tc.fam.gen(n)
 	sfx := fmt.Sprint(i)
+	body := "\tprintln(" + strings.ReplaceAll(call, "§", sfx) + ")\n"
+	if strings.HasPrefix(call, "\t") {
+		body = strings.ReplaceAll(call, "§", sfx) // a whole body
+	}
 	return goprog.Case{
 		Decls: strings.ReplaceAll(decls, "§", sfx),
-		Body:  "\tprintln(" + strings.ReplaceAll(call, "§", sfx) + ")\n",
+		Body:  body,
 		// no wrapper: these programs never panic, and the test function must stay small
 		NoWrap: true,
 	}
@@ -347,6 +353,25 @@ type result struct {
 	class string // ok | limit | other
 	out   string
 	msg   string
+}
+
+func runTemplate(src []byte) (r result) {
+	t, err := scriggo.BuildTemplate(scriggo.Files{"index.txt": src}, "index.txt", nil)
+	if err != nil {
+		var be *scriggo.BuildError
+		if errors.As(err, &be) {
+			if limitMsg.MatchString(be.Message()) {
+				return result{class: "limit", msg: be.Message()}
+			}
+			return result{class: "other", msg: "build error that is not a limit error: " + be.Error()}
+		}
+		return result{class: "other", msg: fmt.Sprintf("BuildTemplate returned (%T) %v, not a *BuildError", err, err)}
+	}
+	var out strings.Builder
+	if err := t.Run(&out, nil, nil); err != nil {
+		return result{class: "other", out: out.String(), msg: fmt.Sprintf("Run returned (%T) %v", err, err)}
+	}
+	return result{class: "ok", out: out.String()}
 }
 
 func runScriggo(src []byte, withNative bool) (r result) {
@@ -395,6 +420,10 @@ func spaces(tier string) []kit.Space {
 
 	source := func(ci int) []byte {
 		c := cases[ci]
+		if c.fam.template {
+			decls, _, _ := c.fam.gen(c.fam.ns[c.k])
+			return []byte(decls)
+		}
 		if c.fam.native {
 			pc := c.program(uint64(ci))
 			return []byte("package main\n\nimport \"p\"\n\n" + pc.Decls + "\n" + pc.Func(uint64(ci)) + fmt.Sprintf("\nfunc main() {\n\tt%d()\n}\n", ci))
@@ -426,7 +455,13 @@ func spaces(tier string) []kit.Space {
 			}
 		}
 		src := source(ci)
-		r := runScriggo(src, c.fam.native)
+		run := func(src []byte) result {
+			if c.fam.template {
+				return runTemplate(src)
+			}
+			return runScriggo(src, c.fam.native)
+		}
+		r := run(src)
 		o := kit.Outcome{OK: true, Nontrivial: true, Ops: n}
 		detail := func() string {
 			s := string(src)
@@ -447,7 +482,7 @@ func spaces(tier string) []kit.Space {
 			}
 			// monotonicity: no smaller n of the sweep may have hit the limit
 			for k := 0; k < c.k; k++ {
-				prev := runScriggo(source(ci-c.k+k), c.fam.native)
+				prev := run(source(ci - c.k + k))
 				if prev.class == "limit" {
 					o.OK = false
 					o.Key = fam + " outcome=non-monotone"
